@@ -14,14 +14,17 @@ args = sys.argv[1:]
 sid = args.pop(0)
 name = sid
 suite = True
+srcroot = "/tmp/seed"
 while args and args[0].startswith("--"):
     a = args.pop(0)
     if a == "--name":
         name = args.pop(0)
     elif a == "--no-suite":
         suite = False
+    elif a == "--src":
+        srcroot = args.pop(0)
 checks = args
-src = "/tmp/seed/%s.out" % sid
+src = "%s/%s.out" % (srcroot, sid)
 patch = os.path.join(src, "patch.diff")
 demo = os.path.join(src, "demo.py")
 wt = tempfile.mkdtemp(prefix="seedwt.", dir="/tmp")
